@@ -50,10 +50,11 @@ import (
 )
 
 type c17sCase struct {
-	Proto      string          `json:"proto"`                  // h1 | h2c | h2tls
-	StreamType string          `json:"stream_type"`            // unary | client | server | bidi
-	Origin     string          `json:"origin,omitempty"`       // value of the Origin request header ("" = none): makes the CORS middleware set its Access-Control-* headers
-	Tail       string          `json:"request_tail,omitempty"` // what follows the first request message (c17sTails); "" = the default of the stream type: one well-formed message (none for a server stream)
+	Proto      string          `json:"proto"`                    // h1 | h2c | h2tls | h1-on-h2c (an HTTP/1.1 request to the h2c server)
+	StreamType string          `json:"stream_type"`              // unary | client | server | bidi | idempotent (IdempotentUnary, POST)
+	Timeout    string          `json:"timeout_header,omitempty"` // value of a Connect-Timeout-Ms request header ("" = none)
+	Origin     string          `json:"origin,omitempty"`         // value of the Origin request header ("" = none): makes the CORS middleware set its Access-Control-* headers
+	Tail       string          `json:"request_tail,omitempty"`   // what follows the first request message (c17sTails); "" = the default of the stream type: one well-formed message (none for a server stream)
 	Raw        json.RawMessage `json:"raw"`
 }
 
@@ -243,7 +244,7 @@ func c17sTailApplies(protoName, streamType, tail string) bool {
 	if tail == "" {
 		return true
 	}
-	if streamType == "unary" {
+	if streamType == "unary" || streamType == "idempotent" {
 		return false // a Connect unary request is one un-enveloped message
 	}
 	return !strings.Contains(tail, "halfclose") || protoName == "h1"
@@ -256,6 +257,11 @@ func c17sRequest(streamType, tail string, raw *conformancev1.RawHTTPResponse) (p
 	switch streamType {
 	case "unary":
 		return conformancev1connect.ConformanceServiceUnaryProcedure, "application/proto", c17sMarshal(&conformancev1.UnaryRequest{
+			ResponseDefinition: &conformancev1.UnaryResponseDefinition{RawResponse: raw},
+			RequestData:        []byte("req-data"),
+		}), false
+	case "idempotent":
+		return conformancev1connect.ConformanceServiceIdempotentUnaryProcedure, "application/proto", c17sMarshal(&conformancev1.IdempotentUnaryRequest{
 			ResponseDefinition: &conformancev1.UnaryResponseDefinition{RawResponse: raw},
 			RequestData:        []byte("req-data"),
 		}), false
@@ -281,14 +287,17 @@ func c17sRequest(streamType, tail string, raw *conformancev1.RawHTTPResponse) (p
 	return path, "application/connect+proto", append(c17sEnvelope(0, first), rest...), halfClose
 }
 
-func c17sRequestHeaders(srv *c17sServer, streamType, origin, contentType string) http.Header {
+func c17sRequestHeaders(srv *c17sServer, streamType, origin, timeout, contentType string) http.Header {
 	h := http.Header{}
-	httpVersion := "1"
-	if srv.name != "h1" {
+	httpVersion := "1" // what this client speaks
+	if srv.name == "h2c" || srv.name == "h2tls" {
 		httpVersion = "2"
 	}
 	if origin != "" {
 		h.Set("Origin", origin)
+	}
+	if timeout != "" {
+		h.Set("Connect-Timeout-Ms", timeout)
 	}
 	h.Set("X-Expect-Tls", strconv.FormatBool(srv.name == "h2tls"))
 	h.Set("Content-Type", contentType)
@@ -348,11 +357,11 @@ func c17sRunHalfClose(srv *c17sServer, path string, header http.Header, body []b
 	return obs
 }
 
-func c17sRun(srv *c17sServer, streamType, origin, tail string, raw *conformancev1.RawHTTPResponse) c17rObs {
+func c17sRun(srv *c17sServer, streamType, origin, timeout, tail string, raw *conformancev1.RawHTTPResponse) c17rObs {
 	var obs c17rObs
 	path, contentType, body, halfClose := c17sRequest(streamType, tail, raw)
 	if halfClose {
-		return c17sRunHalfClose(srv, path, c17sRequestHeaders(srv, streamType, origin, contentType), body)
+		return c17sRunHalfClose(srv, path, c17sRequestHeaders(srv, streamType, origin, timeout, contentType), body)
 	}
 	ctx, cancel := context.WithTimeout(context.Background(), 30*time.Second) // liveness guard only
 	defer cancel()
@@ -361,7 +370,7 @@ func c17sRun(srv *c17sServer, streamType, origin, tail string, raw *conformancev
 		obs.Err = "new request: " + err.Error()
 		return obs
 	}
-	req.Header = c17sRequestHeaders(srv, streamType, origin, contentType)
+	req.Header = c17sRequestHeaders(srv, streamType, origin, timeout, contentType)
 	resp, err := srv.client.Do(req)
 	if err != nil {
 		obs.Err = "do: " + err.Error()
@@ -402,8 +411,41 @@ func c17sTailFaulty(tail string) bool {
 	return false
 }
 
+// c17sIgnoredKey: the raw response prescribed through the IdempotentUnary procedure was not used
+// at all - the procedure's ordinary response went out.  One key for this one cause (the generic
+// oracle would report it under every status / header / trailer / body key at once).
+const c17sIgnoredKey = "reference-server:raw-response-ignored:idempotent-unary"
+
+// c17sOrdinaryIdempotentResponse: is the observed response the ordinary answer of the
+// IdempotentUnary handler (a payload that echoes the request)?
+func c17sOrdinaryIdempotentResponse(obs c17rObs) bool {
+	if obs.Err != "" || obs.Status != http.StatusOK || obs.Header.Get("Content-Type") != "application/proto" {
+		return false
+	}
+	resp := &conformancev1.IdempotentUnaryResponse{}
+	if err := proto.Unmarshal(obs.Body, resp); err != nil {
+		return false
+	}
+	return resp.GetPayload().GetRequestInfo() != nil
+}
+
+func c17sCollapseIgnored(streamType string, raw *conformancev1.RawHTTPResponse, obs c17rObs, verdicts []c17rVerdict) []c17rVerdict {
+	if streamType != "idempotent" || len(verdicts) == 0 || !c17sOrdinaryIdempotentResponse(obs) {
+		return verdicts
+	}
+	keys := map[string]bool{}
+	var list []string
+	for _, v := range verdicts {
+		if !keys[v.key] {
+			keys[v.key] = true
+			list = append(list, strings.TrimPrefix(v.key, "reference-server:"))
+		}
+	}
+	return []c17rVerdict{{c17sIgnoredKey, fmt.Sprintf("POST %s with IdempotentUnaryRequest.response_definition.raw_response set: the server answered %d %s with the procedure's ordinary IdempotentUnaryResponse (payload.request_info present, %d body bytes) instead of the raw response (fails the demands: %s)", conformancev1connect.ConformanceServiceIdempotentUnaryProcedure, obs.Status, obs.Header.Get("Content-Type"), len(obs.Body), strings.Join(list, ", "))}}
+}
+
 func c17sJudge(protoName, origin, tail string, raw *conformancev1.RawHTTPResponse, obs c17rObs) (out []c17rVerdict) {
-	h2 := protoName != "h1"
+	h2 := protoName == "h2c" || protoName == "h2tls"
 	faulty := c17sTailFaulty(tail)
 	add := func(key, format string, a ...any) {
 		if faulty {
@@ -517,7 +559,47 @@ var (
 	c17sOrigins     = []string{"", "https://c17-browser.example"}
 )
 
-func c17sEnumerate(thorough bool, visit0 func(grid, proto, streamType, origin, tail string, raw *conformancev1.RawHTTPResponse) bool) {
+// c17sSizedBodies: identity bodies of exactly n bytes around the size at which an HTTP/1.1 server
+// stops buffering a response (and has to choose between Content-Length and chunked encoding), as
+// one binary message and as a stream of one item.
+func c17sSizedBodies(thorough bool) []c17lib.Body {
+	fill := func(n int) []byte {
+		out := make([]byte, n)
+		for i := range out {
+			out[i] = byte(i*7 + i/251 + 3)
+		}
+		return out
+	}
+	// the largest stays below the servers' message_receive_limit (c17sReceiveLimit): the definition travels in a request message
+	sizes := []int{0, 1, 2047, 2048, 2049, 24 << 10}
+	if thorough {
+		sizes = []int{0, 1, 5, 512, 2047, 2048, 2049, 4095, 4096, 4097, 16 << 10, 24 << 10}
+	}
+	var out []c17lib.Body
+	for _, n := range sizes {
+		out = append(out, c17lib.Body{Unary: &conformancev1.MessageContents{Data: &conformancev1.MessageContents_Binary{Binary: fill(n)}}})
+	}
+	for _, n := range sizes {
+		if n < 2000 || n > 5000 {
+			continue
+		}
+		out = append(out, c17lib.Body{Stream: &conformancev1.StreamContents{Items: []*conformancev1.StreamContents_StreamItem{{
+			Flags: 2, Payload: &conformancev1.MessageContents{Data: &conformancev1.MessageContents_Binary{Binary: fill(n - 5)}},
+		}}}})
+	}
+	return out
+}
+
+var (
+	c17sAllProtos      = []string{"h1", "h1-on-h2c", "h2c", "h2tls"}
+	c17sAllStreamTypes = []string{"unary", "idempotent", "client", "server", "bidi"}
+	c17sTimeouts       = []string{"", "60000"}
+)
+
+func c17sEnumerate(thorough bool, visitX func(grid, proto, streamType, origin, timeout, tail string, raw *conformancev1.RawHTTPResponse) bool) {
+	visit0 := func(grid, proto, streamType, origin, tail string, raw *conformancev1.RawHTTPResponse) bool {
+		return visitX(grid, proto, streamType, origin, "", tail, raw)
+	}
 	visit := func(grid, proto, streamType, origin string, raw *conformancev1.RawHTTPResponse) bool {
 		return visit0(grid, proto, streamType, origin, "", raw)
 	}
@@ -594,6 +676,29 @@ func c17sEnumerate(thorough bool, visit0 func(grid, proto, streamType, origin, t
 			}
 		}
 	}
+	// grid P: EVERY procedure that can carry a raw response x every way of reaching the server
+	// (HTTP/1.1 to the h1 server, HTTP/1.1 to the h2c server, h2c, HTTP/2 over TLS) x request with /
+	// without an RPC timeout header (with one, the request-check middleware hands a copy of the
+	// request down the chain) x trailers none / one / several / a name in two entries x body sizes
+	ptl := c17lib.TrailerLists(0)
+	pEnvs := []c17rEnv{{0, nil, nil}, {0, nil, ptl[1]}, {0, c17lib.HeaderLists(0)[2], ptl[2]}, {404, nil, ptl[3]}}
+	if thorough {
+		pEnvs = append(pEnvs, c17rEnv{0, nil, ptl[4]}, c17rEnv{500, c17lib.HeaderLists(0)[1], ptl[1]})
+	}
+	for _, e := range pEnvs {
+		for _, b := range c17sSizedBodies(thorough) {
+			raw := c17rMake(e, b)
+			for _, timeout := range c17sTimeouts {
+				for _, st := range c17sAllStreamTypes {
+					for _, p := range c17sAllProtos {
+						if !visitX("P", p, st, "", timeout, "", raw) {
+							return
+						}
+					}
+				}
+			}
+		}
+	}
 	// grid B (thorough): the full body alphabet with one rich environment
 	if thorough {
 		e := c17rEnv{404, c17lib.HeaderLists(0)[2], c17lib.TrailerLists(0)[1]}
@@ -613,7 +718,7 @@ func c17sEnumerate(thorough bool, visit0 func(grid, proto, streamType, origin, t
 func TestVerifC17ReferenceServer(t *testing.T) {
 	r := rep.New("c17-refserver")
 	defer r.Write()
-	r.Rule = "case = (server environment h1 | h2c (x/net h2c server) | h2tls (net/http's bundled HTTP/2 server, own certificate), each the complete chain of createServer: CORS -> rawResponder -> request checks -> connect-go) x (stream type unary|client|server|bidi half-duplex, Connect protocol, proto codec) x (Origin request header absent|present) x RawHTTPResponse carried in response_definition.raw_response of the first request message; grid E = status/header/trailer combinations (17 quick incl. 204 and 304 with trailers, 150 thorough; incl. header and trailer lists that name the same header / trailer in two entries) x medium body set, grid M = header lists (and trailer lists) that name what the CORS middleware sets itself before rawResponder runs (Vary, Access-Control-Allow-Origin / -Expose-Headers / -Allow-Credentials; other case spellings; one entry, two entries) x with/without Origin: every given value must be on the wire in list order, the middleware's own values are tolerated for those four names only; grid F (request-side faults) = what follows the first request message on the request stream of a client / server / bidi procedure {nothing, two good messages; at the 2nd or 3rd position and (where the stream can go on) followed by a good message: a message over the server's message_receive_limit (32 KiB, all environments), the compressed flag without a declared encoding, the end-stream flag, a payload that is no protobuf message, the body ending inside the envelope prefix / inside the declared payload / after a prefix that declares 4 GiB, and (HTTP/1.1, bare TCP) the client closing its sending side in the middle of a chunk} x 7 status/header/trailer combinations x 7 bodies (thorough 17 x 19): the raw response must go out exactly as given whatever becomes of the rest of the request; grid B (thorough) = full body alphabet x one status/header/trailer combination; status 204/304 over HTTP/2: status, headers and trailers demanded (the body is refused by the server's ResponseWriter); distinct (environment, stream type, origin, request tail, definition) = non-trivial; oracle as in unit c17-rawresp with connect-go's own response (Server/Accept-Encoding/Content-Type headers, 'use raw response instead' error body) as the handler output that must not appear"
+	r.Rule = "case = (server environment h1 | h2c (x/net h2c server) | h2tls (net/http's bundled HTTP/2 server, own certificate), each the complete chain of createServer: CORS -> rawResponder -> request checks -> connect-go) x (stream type unary|client|server|bidi half-duplex, Connect protocol, proto codec) x (Origin request header absent|present) x RawHTTPResponse carried in response_definition.raw_response of the first request message; grid E = status/header/trailer combinations (17 quick incl. 204 and 304 with trailers, 150 thorough; incl. header and trailer lists that name the same header / trailer in two entries) x medium body set, grid M = header lists (and trailer lists) that name what the CORS middleware sets itself before rawResponder runs (Vary, Access-Control-Allow-Origin / -Expose-Headers / -Allow-Credentials; other case spellings; one entry, two entries) x with/without Origin: every given value must be on the wire in list order, the middleware's own values are tolerated for those four names only; grid F (request-side faults) = what follows the first request message on the request stream of a client / server / bidi procedure {nothing, two good messages; at the 2nd or 3rd position and (where the stream can go on) followed by a good message: a message over the server's message_receive_limit (32 KiB, all environments), the compressed flag without a declared encoding, the end-stream flag, a payload that is no protobuf message, the body ending inside the envelope prefix / inside the declared payload / after a prefix that declares 4 GiB, and (HTTP/1.1, bare TCP) the client closing its sending side in the middle of a chunk} x 7 status/header/trailer combinations x 7 bodies (thorough 17 x 19): the raw response must go out exactly as given whatever becomes of the rest of the request; grid B (thorough) = full body alphabet x one status/header/trailer combination; status 204/304 over HTTP/2: status, headers and trailers demanded (the body is refused by the server's ResponseWriter); distinct (environment, stream type, origin, request tail, definition) = non-trivial; oracle as in unit c17-rawresp with connect-go's own response (Server/Accept-Encoding/Content-Type headers, 'use raw response instead' error body) as the handler output that must not appear; grid P = every procedure that can carry a raw response {Unary, IdempotentUnary, ClientStream, ServerStream, BidiStream} x {h1, HTTP/1.1 to the h2c server, h2c, h2tls} x Connect-Timeout-Ms request header absent / present (the request-check middleware then passes a copy of the request down the chain) x trailers {none, one, two, a name in two entries} x identity bodies of 0, 1, 2047, 2048, 2049, 24 KiB bytes (one message; 2047-2049 also as one stream item)"
 
 	servers := map[string]*c17sServer{}
 	{
@@ -649,13 +754,19 @@ func TestVerifC17ReferenceServer(t *testing.T) {
 			t.Fatal(firstErr)
 		}
 	}
+	{
+		// a second way into the h2c server: plain HTTP/1.1 (x/net's h2c handler passes it on to the same chain)
+		closed := make(chan error, 1)
+		closed <- nil
+		servers["h1-on-h2c"] = &c17sServer{name: "h1-on-h2c", url: servers["h2c"].url, client: &http.Client{Transport: &http.Transport{DisableCompression: true}}, cancel: func() {}, done: closed}
+	}
 	defer func() {
 		for _, s := range servers {
 			s.stop()
 		}
 	}()
 
-	evalOne := func(protoName, streamType, origin, tail string, raw *conformancev1.RawHTTPResponse, verbose bool) []c17rVerdict {
+	evalOne := func(protoName, streamType, origin, timeout, tail string, raw *conformancev1.RawHTTPResponse, verbose bool) []c17rVerdict {
 		srv := servers[protoName]
 		if srv == nil {
 			return []c17rVerdict{{"reference-server:transport-error", "no such server environment: " + protoName}}
@@ -663,11 +774,12 @@ func TestVerifC17ReferenceServer(t *testing.T) {
 		if !c17sTailApplies(protoName, streamType, tail) {
 			return []c17rVerdict{{"reference-server:transport-error", "request tail " + tail + " does not exist for " + protoName + "/" + streamType}}
 		}
-		obs := c17sRun(srv, streamType, origin, tail, raw)
-		verdicts := c17sJudge(protoName, origin, tail, raw, obs)
+		obs := c17sRun(srv, streamType, origin, timeout, tail, raw)
+		verdicts := c17sCollapseIgnored(streamType, raw, obs, c17sJudge(protoName, origin, tail, raw, obs))
 		if len(verdicts) > 0 {
 			srv.client.CloseIdleConnections()
-			again := c17sJudge(protoName, origin, tail, raw, c17sRun(srv, streamType, origin, tail, raw))
+			obs2 := c17sRun(srv, streamType, origin, timeout, tail, raw)
+			again := c17sCollapseIgnored(streamType, raw, obs2, c17sJudge(protoName, origin, tail, raw, obs2))
 			keys := map[string]bool{}
 			for _, v := range again {
 				keys[v.key] = true
@@ -697,6 +809,12 @@ func TestVerifC17ReferenceServer(t *testing.T) {
 		if origin != "" {
 			cls += "/with-origin"
 		}
+		if timeout != "" {
+			cls += "/with-timeout-header"
+		}
+		if protoName == "h1-on-h2c" {
+			cls = "h2c-server:" + cls
+		}
 		if tail != "" {
 			cls = fmt.Sprintf("%s/request-tail:%s", obs.Proto, tail)
 		}
@@ -705,7 +823,12 @@ func TestVerifC17ReferenceServer(t *testing.T) {
 		}
 		r.Outcome(cls)
 		if verbose {
-			fmt.Printf("replay: proto=%s stream=%s origin=%q request-tail=%q raw=%s\nobserved: %+v\nbody=%x\nverdicts=%v\n", protoName, streamType, origin, tail, c17lib.JSON(raw), obs, obs.Body, verdicts)
+			body := obs.Body
+			if len(body) > 512 {
+				body = body[:512]
+			}
+			obs.Body = nil
+			fmt.Printf("replay: proto=%s stream=%s origin=%q timeout-header=%q request-tail=%q raw=%s\nobserved: %+v\nbody (first 512 bytes)=%x\nverdicts=%v\n", protoName, streamType, origin, timeout, tail, c17lib.Short(raw), obs, body, verdicts)
 		}
 		return verdicts
 	}
@@ -725,7 +848,7 @@ func TestVerifC17ReferenceServer(t *testing.T) {
 		r.NonTrivial("")
 		r.NonTrivial("")
 		r.Sample(rj.Replay)
-		for _, v := range evalOne(rj.Replay.Proto, rj.Replay.StreamType, rj.Replay.Origin, rj.Replay.Tail, raw, true) {
+		for _, v := range evalOne(rj.Replay.Proto, rj.Replay.StreamType, rj.Replay.Origin, rj.Replay.Timeout, rj.Replay.Tail, raw, true) {
 			r.Violate(v.key, v.detail, rj.Replay)
 		}
 		return
@@ -733,7 +856,7 @@ func TestVerifC17ReferenceServer(t *testing.T) {
 
 	deadline := rep.Deadline()
 	var k int64
-	c17sEnumerate(rep.Thorough(), func(grid, protoName, streamType, origin, tail string, raw *conformancev1.RawHTTPResponse) bool {
+	c17sEnumerate(rep.Thorough(), func(grid, protoName, streamType, origin, timeout, tail string, raw *conformancev1.RawHTTPResponse) bool {
 		k++
 		if !r.Mine(k) {
 			return true
@@ -742,19 +865,22 @@ func TestVerifC17ReferenceServer(t *testing.T) {
 			r.NotExhaustive("budget reached in grid " + grid + " before the enumeration was complete")
 			return false
 		}
-		verdicts := evalOne(protoName, streamType, origin, tail, raw, false)
+		verdicts := evalOne(protoName, streamType, origin, timeout, tail, raw, false)
 		r.Eval(1)
 		r.Count("grid:"+grid, 1)
-		c := c17sCase{Proto: protoName, StreamType: streamType, Origin: origin, Tail: tail, Raw: c17lib.JSON(raw)}
-		r.NonTrivial(strings.Join([]string{protoName, streamType, origin, tail, string(c.Raw)}, "|"))
+		c := c17sCase{Proto: protoName, StreamType: streamType, Origin: origin, Timeout: timeout, Tail: tail, Raw: c17lib.JSON(raw)}
+		r.NonTrivial(strings.Join([]string{protoName, streamType, origin, timeout, tail, string(c.Raw)}, "|"))
 		if k%503 == 1 {
 			r.Sample(c)
 		}
 		if tail != "" && len(verdicts) > 0 {
 			r.Count("cases-with-verdicts:request-tail:"+tail, 1)
 		}
+		if grid == "P" && len(verdicts) > 0 {
+			r.Count(fmt.Sprintf("cases-with-verdicts:grid-P:%s:%s:timeout-header=%q", protoName, streamType, timeout), 1)
+		}
 		for _, v := range verdicts {
-			r.Violate(v.key, fmt.Sprintf("proto=%s stream-type=%s request-origin=%q request-tail=%q raw=%s: %s", protoName, streamType, origin, tail, c17lib.Short(raw), v.detail), c)
+			r.Violate(v.key, fmt.Sprintf("proto=%s stream-type=%s request-origin=%q timeout-header=%q request-tail=%q raw=%s: %s", protoName, streamType, origin, timeout, tail, c17lib.Short(raw), v.detail), c)
 		}
 		return true
 	})
